@@ -95,6 +95,11 @@ type DADbl struct {
 
 	getCount map[uint64]int // number of Get calls seen in the current examination of a height
 
+	// Down, when set and true, makes every submission fail (an outage of the DA layer bounded in time,
+	// whatever the number of attempts made during it). DownKind selects the failure (default "error").
+	Down     func() bool
+	DownKind string
+
 	dead func() bool
 }
 
@@ -261,7 +266,12 @@ func (d *DADbl) SubmitWithOptions(ctx context.Context, blobs []coreda.Blob, gasP
 		kind = d.KindOf(blobs[0])
 	}
 	resp := SubmitResp{Kind: "accept"}
-	if s := d.scripts[kind]; len(s) > 0 {
+	if d.Down != nil && d.Down() {
+		resp = SubmitResp{Kind: "error"}
+		if d.DownKind != "" {
+			resp.Kind = d.DownKind
+		}
+	} else if s := d.scripts[kind]; len(s) > 0 {
 		resp = s[0]
 		d.scripts[kind] = s[1:]
 	}
